@@ -94,7 +94,8 @@ Commit(s) ==
 (* ---- children ---- *)
 Zombie(c, code) == [c EXCEPT !.alive = "zombie", !.code = code, !.fd = <<"x", "x", "x">>, !.termAt = INF, !.xo = FALSE]
 \* what the library can observe of a child's end: its exit handle hung up (the child ended, or closed it and lives on)
-Hup(c) == c.alive # "run" \/ ~c.xo
+\* (a child that ends gives it up, unless a descendant of it inherited the handle and lives on: ChildExitG)
+Hup(c) == ~c.xo
 
 \* the child of handle h receives signal sig (it has not been reaped)
 Deliver(s, h, sig) ==
@@ -168,13 +169,13 @@ RunStop(s) ==
                           ELSE IF a = KILL THEN Deliver(s, h, SIGKILL) ELSE s
                 IN RunStop([s1 EXCEPT !.fr.pc = "look"])
     [] s.fr.pc = "look" ->
-         IF s.ch[h].alive = "zombie" THEN Finish(Reap(s, h))
+         IF Hup(s.ch[h]) /\ s.ch[h].alive = "zombie" THEN Finish(Reap(s, h))
          ELSE IF Hup(s.ch[h]) THEN [s EXCEPT !.fr.pc = "blocked2", !.fr.until = INF]
          ELSE LET e == EffTo(s, h, s.fr.acts[i][2]) IN
            IF e = 0 THEN RunStop([s EXCEPT !.fr.r = ETIMEDOUT, !.fr.i = i + 1, !.fr.pc = "act"])
            ELSE Block(s, AbsUntil(e))
     [] s.fr.pc = "woke" ->
-         IF s.ch[h].alive = "zombie" THEN Finish(Reap(s, h))
+         IF Hup(s.ch[h]) /\ s.ch[h].alive = "zombie" THEN Finish(Reap(s, h))
          ELSE IF Hup(s.ch[h]) THEN [s EXCEPT !.fr.pc = "blocked2", !.fr.until = INF]
          ELSE RunStop([s EXCEPT !.fr.r = ETIMEDOUT, !.fr.i = i + 1, !.fr.pc = "act"])
     [] s.fr.pc = "intr" -> Finish([s EXCEPT !.fr.r = EINTR])   \* the wait was interrupted: an error other than "timed out" ends the sequence
@@ -186,12 +187,12 @@ Block2(s) == [s EXCEPT !.fr.pc = "blocked2", !.fr.until = INF]
 RunWait(s) ==
   LET h == s.fr.h IN
   CASE s.fr.pc = "look" ->
-         IF s.ch[h].alive = "zombie" THEN Done(Reap(s, h))
+         IF Hup(s.ch[h]) /\ s.ch[h].alive = "zombie" THEN Done(Reap(s, h))
          ELSE IF Hup(s.ch[h]) THEN Block2(s)
          ELSE LET e == EffTo(s, h, s.fr.a[1]) IN
            IF e = 0 THEN Done([s EXCEPT !.fr.r = ETIMEDOUT]) ELSE Block(s, AbsUntil(e))
     [] s.fr.pc = "woke" ->
-         IF s.ch[h].alive = "zombie" THEN Done(Reap(s, h))
+         IF Hup(s.ch[h]) /\ s.ch[h].alive = "zombie" THEN Done(Reap(s, h))
          ELSE IF Hup(s.ch[h]) THEN Block2(s)
          ELSE Done([s EXCEPT !.fr.r = ETIMEDOUT])
     [] s.fr.pc = "intr" -> Done([s EXCEPT !.fr.r = EINTR])     \* nothing changes: the caller may simply wait again
@@ -464,7 +465,7 @@ RetRec(s) ==
        [] f.fn = "start" /\ f.r < 0 /\ ~StrictFailedStart -> [e |-> "ret", t |-> now, mon |-> <<>>, r |-> f.r]
        [] f.fn = "start" /\ f.r = 1 /\ f.x = <<"fork">> ->
             \* in the forked child: start returned 0; pid and wait are rejected there (only destroy is allowed)
-            base @@ [r |-> 1, fchild |-> <<0, EINVAL, EINVAL>>]
+            base @@ [r |-> 1, fchild |-> <<0, EINVAL, EINVAL, 1>>]
        [] f.alt # {} -> base @@ [r |-> [any |-> SetToSeq({f.r} \cup f.alt)], ralt |-> 1]
        [] OTHER -> base @@ [r |-> f.r]
 
@@ -663,6 +664,21 @@ ChildExit(h, code) ==
   /\ EnvOK /\ ch[h].alive = "run" /\ ch[h].self
   /\ ch' = [ch EXCEPT ![h] = Zombie(@, code)]
   /\ hist' = Append(hist, EnvRec("exit", h, [code |-> code]))
+  /\ UNCHANGED <<life, stv, opt, pend, buf, cnt, now, fr, ncalls>>
+
+\* The child ends, but a process it started earlier (a daemon, a background job) inherited its descriptors - the stream pipes
+\* and the exit handle - and lives on.  The library learns of a child's end only from the exit handle, so until that
+\* descendant is gone too (GrandGone) a wait times out although the child is a zombie, and the streams see no end.
+ChildExitG(h, code) ==
+  /\ EnvOK /\ ch[h].alive = "run" /\ ch[h].self /\ ch[h].xo
+  /\ ch' = [ch EXCEPT ![h].alive = "zombie", ![h].code = code, ![h].termAt = INF]
+  /\ hist' = Append(hist, EnvRec("exitg", h, [code |-> code]))
+  /\ UNCHANGED <<life, stv, opt, pend, buf, cnt, now, fr, ncalls>>
+
+GrandGone(h) ==
+  /\ EnvOK /\ ch[h].alive \in {"zombie", "reaped"} /\ (ch[h].xo \/ ch[h].fd # <<"x", "x", "x">>)
+  /\ ch' = [ch EXCEPT ![h].xo = FALSE, ![h].fd = <<"x", "x", "x">>]
+  /\ hist' = Append(hist, EnvRec("ggone", h, [x |-> 1]))
   /\ UNCHANGED <<life, stv, opt, pend, buf, cnt, now, fr, ncalls>>
 
 \* the child is ended by a signal from somewhere else (core = 1: with a core dump flag in the status word)
